@@ -19,6 +19,7 @@ Definition read_is_model (Vs : list (@vrec (option bytes))) (fv : option bytes) 
   | QList a b rev limit out => out = list_model s fv single_part cur a b rev limit
   | QCount a b out => out = count_model s fv single_part true cur a b
   | QStream _ _ _ _ => False
+  | QEtcd _ _ _ _ _ => False
   end.
 
 (* the reads C03 speaks about, with the alphabet hypothesis of C10 *)
@@ -28,12 +29,13 @@ Definition read_valid (fv : option bytes) (cur : N) (q : c03_read) : Prop :=
   | QList a b rev limit _ => alpha a /\ alpha b /\ bcmp a b = Lt /\ floor_check fv (eff_rev rev cur) = FOk /\ (0 <= limit < max_i64)%Z
   | QCount a b _ => alpha a /\ alpha b /\ bcmp a b = Lt /\ floor_check fv cur = FOk
   | QStream _ _ _ _ => False
+  | QEtcd _ _ _ _ _ => False
   end.
 
 Theorem c03_read_sound Vs fv cur q : wf_store Vs -> no_marker Vs -> read_valid fv cur q -> read_is_model Vs fv cur q ->
   read_meets false in_range Vs cur q = true.
 Proof.
-  intros WF NM V M. destruct q as [k rev out|a b rev limit out|a b out|a b rev out]; cbn [read_valid read_is_model] in *; try contradiction.
+  intros WF NM V M. destruct q as [k rev out|a b rev limit out|a b out|a b rev out|a b rev limit out]; cbn [read_valid read_is_model] in *; try contradiction.
   - destruct V as (Ak & H0 & Hr). subst out. rewrite (c03_get Vs cur k rev WF NM Ak Hr).
     cbn [read_meets]. unfold eff_rev. replace (rev =? 0) with false by (symmetry; apply N.eqb_neq; lia).
     destruct (find_key k (snapshot_spec Vs rev)) as [[v r]|]; apply vn_opt_refl.
